@@ -455,6 +455,13 @@ class Sym:
         if isinstance(test, ast.UnaryOp) and isinstance(test.op, ast.Not):
             t, f = s.cond_split(test.operand, leaf)
             return f, t
+        if isinstance(test, ast.Compare) and len(test.ops) > 1:
+            parts = []
+            left = test.left
+            for op, right in zip(test.ops, test.comparators):
+                parts.append(ast.copy_location(ast.Compare(left=left, ops=[op], comparators=[right]), test))
+                left = right
+            return s.cond_split(ast.copy_location(ast.BoolOp(op=ast.And(), values=parts), test), leaf)
         ct = s.T(test, leaf)
         s.note_calls(test, leaf)
         txt = ast.unparse(test)
@@ -463,6 +470,11 @@ class Sym:
             return [leaf], []
         if ct in (('c', False), ('c', None)) or known is False:
             return [], [leaf]
+        # a pure condition already decided on this path keeps its value (no contradictory paths)
+        if _pure(ct):
+            for c0, t0, _ in leaf.conds:
+                if c0 == ct:
+                    return ([leaf], []) if t0 else ([], [leaf])
         a, b = leaf.clone(), leaf.clone()
         a.conds.append((ct, True, test))
         b.conds.append((ct, False, test))
@@ -728,6 +740,19 @@ class Sym:
         if st.finalbody:
             out = s.block(st.finalbody, out)
         return out
+
+
+PURE_CALLS = {'isinstance', 'len', 'callable', 'type', 'int', 'float', 'str', 'bool', 'abs', 'min', 'max', 'round', 'hasattr', 'issubclass'}
+
+
+def _pure(t):
+    """no sub-term whose value may change between two evaluations (calls other than a few pure builtins)"""
+    for x in walk(t):
+        if x[0] == 'call' and not (x[1][0] == 'b' and x[1][1] in PURE_CALLS):
+            return False
+        if x[0] in ('loopvar', 'maybe', 'unk', 'yieldexpr'):
+            return False
+    return True
 
 
 def _calls_postorder(expr):
